@@ -120,6 +120,8 @@ def gen_case(rng: random.Random, big=False) -> dict:
             fu["t2"] = {"owner_scope": rng.choice(["any", "agent", "world", "Agent", "WORLD"])}
         elif rng.random() < 0.2:
             fu["t2"] = {"tiers": rng.sample(["exact_semantic", "cluster_semantic", "archive"], rng.randint(1, 3))}
+        if graphs and rng.random() < 0.35:
+            fu["relabel"] = rng.randint(1, 3)  # the nodes are renamed before this ask (same ids, same number of nodes)
         followups.append(fu)
     return {"eps": eps, "t2": t2, "gel": gel, "graphs": graphs, "t1_ids": t1_ids, "slice": sl, "query": query, "followups": followups,
             "agent": rng.choice(["A", "A", "B", "Z"]), "k_surface": DIM}
@@ -477,6 +479,23 @@ def check_history(case, sess: Session):
         c2["t2"] = {**case["t2"], **fu.get("t2", {})}
         c2["followups"] = []
         c2["history_prefix"] = {"agent": case["agent"], "query": case["query"], "t2": case["t2"]}
+        if fu.get("relabel") and shared.get("st") is not None and case.get("graphs"):
+            # the labels rotate among the nodes of each graph (upserts under the same ids): the labels T2 matches against the
+            # used hits are those the store holds NOW
+            from clematis.engine.types import Node
+            cur_graphs = copy.deepcopy(shared.get("graphs_now") or case["graphs"])
+            for gid, g in cur_graphs.items():
+                labs = [n[1] for n in g["nodes"]]
+                k_ = fu["relabel"] % max(1, len(labs))
+                labs = labs[k_:] + labs[:k_]
+                for n, lb in zip(g["nodes"], labs):
+                    n[1] = lb
+                if g["nodes"]:
+                    shared["st"].upsert_nodes(gid, [Node(id=n[0], label=n[1], attrs=({"tags": list(n[2])} if len(n) > 2 and n[2] is not None else {})) for n in g["nodes"]])
+            shared["graphs_now"] = cur_graphs
+            sess.count("followups_after_nodes_were_renamed")
+        if shared.get("graphs_now"):
+            c2["graphs"] = copy.deepcopy(shared["graphs_now"])
         check_case(c2, sess, shared)
 
 
@@ -515,6 +534,7 @@ def main(tier: str, seed: int):
     sess.require("cases_with_residuals", 20)
     sess.require("agent_scoped_nonempty_results", 20)
     sess.require("followup_calls_on_shared_index", 200)
+    sess.require("followups_after_nodes_were_renamed", 50)
     sess.finish()
 
 
